@@ -256,6 +256,7 @@ def main(argv: list[str] | None = None) -> int:
     known = load_known()
     t0 = REAL_MONOTONIC()
     tier = args.tier
+    os.environ["VERIF_TIER"] = tier
     runs = args.runs if args.runs is not None else (mod.QUICK_RUNS if tier == "quick" else None)
     seconds = args.seconds if args.seconds is not None else (getattr(mod, "THOROUGH_SECONDS", 600) if tier == "thorough" else getattr(mod, "QUICK_SECONDS_CAP", 240))
     deadline = t0 + seconds
